@@ -136,6 +136,14 @@ void vfs_pre(int kind, const volatile void *p, size_t sz)
     static const char *KN[] = {"", "fetch_add", "fetch_sub", "fetch_or", "fetch_and", "fetch_xor", "exchange", "load", "store",
                                "compare_exchange", "test_and_set", "flag_clear"};
     (void)sz;
+    if (cur >= 0) {
+        // a spin lock need not call sched_yield: a second test_and_set on the flag this fibre has just lost, with no
+        // other atomic step in between and the flag still set, is a pure retry -- the fibre is parked until the
+        // flag changes (otherwise the unfair schedule that always picks the spinner would look like a livelock)
+        Fibre &f = F[cur];
+        if (kind == 10 && f.park_addr == (volatile int *)p && *f.park_addr) { f.parked = true; g_parks++; }
+        else f.park_addr = nullptr;
+    }
     yield_point(KN[kind % 12], 0x10 + (uint64_t)kind);
     if (g_book && cur >= 0) check_book_addr(p, KN[kind % 12]);
 }
@@ -168,6 +176,16 @@ int vfs_sched_yield(void)
 }
 
 namespace {
+// "cleared / freed only when no owner remains": an owner object that no operation is working on right now holds
+// its reference throughout, so the memory must not be destroyed under it
+void no_stable_owner(const char *what)
+{
+    for (int t = 0; t < T; t++)
+        for (auto &o : F[t].S)
+            if (o.is_owner && !o.busy)
+                verif_fail("C06.clear.owner_remains", "%s while thread %d still holds an owning shared pointer (slot %d) that no operation is touching",
+                           what, t, (int)(&o - F[t].S));
+}
 void alloc_hook(char kind, void *p, size_t sz)
 {
     // called by the interposer (in_lib already 0) before a library malloc / free is performed
@@ -177,7 +195,7 @@ void alloc_hook(char kind, void *p, size_t sz)
             yield_point("free", 0x21);
             in_lib = s;
         }
-        if (p == g_managed) { g_managed_frees++; g_destroy_started = true; }
+        if (p == g_managed) { g_managed_frees++; g_destroy_started = true; if (T > 0) no_stable_owner("the managed memory is freed"); }
         else if (p == g_book) { g_book_frees++; }
     } else {
         (void)sz;
@@ -190,6 +208,7 @@ void clr_cb(void *ptr, void *)
     g_destroy_started = true;
     if (cur >= 0) yield_point("clear_cb", 0x23);
     g_clr_count++;
+    if (T > 0) no_stable_owner("the clear callback runs");
     if (ptr != g_managed) verif_fail("C06.clear.ptr", "clear callback received %p, the managed memory is %p", ptr, g_managed);
     if (!lib_is_live(g_managed)) verif_fail("C06.clear.after_free", "clear callback runs after the memory was freed");
 }
@@ -629,6 +648,22 @@ int engine_g5a(const std::string &catalogue, uint64_t cap, const std::string &ou
     } else if (catalogue == "two-small") {
         auto cf = std::vector<std::pair<int, int>>{{1, 0}, {0, 1}, {1, 1}};
         for (auto &c0 : cf) for (auto &c1 : cf) for (auto &s0 : scripts2) for (auto &s1 : scripts2) {
+            std::vector<uint8_t> s;
+            s.push_back(0);
+            put_thread(s, c0.first, c0.second, s0);
+            put_thread(s, c1.first, c1.second, s1);
+            put_thread(s, 0, 0, {});
+            put_thread(s, 0, 0, {});
+            scen.push_back(s);
+        }
+    } else if (catalogue == "two-all") {
+        // every script of length <= 2 over the seven operations, for both threads, in every small configuration
+        std::vector<std::vector<int>> all2;
+        for (auto &a : scripts1) all2.push_back(a);
+        for (auto &a : scripts1) for (auto &b : scripts1) all2.push_back({a[0], b[0]});
+        auto cf = std::vector<std::pair<int, int>>{{1, 0}, {0, 1}, {1, 1}};
+        for (auto &c0 : cf) for (auto &c1 : cf) for (auto &s0 : all2) for (auto &s1 : all2) {
+            if (c0.first + c1.first == 0) continue;      // nobody owns anything: nothing to destroy
             std::vector<uint8_t> s;
             s.push_back(0);
             put_thread(s, c0.first, c0.second, s0);
